@@ -5,6 +5,7 @@ import KoordVerif.Model.C06Alloc
 import KoordVerif.Model.C06Events
 import KoordVerif.Model.C06Nrt
 import KoordVerif.Model.C06Restore
+import KoordVerif.Model.C06Preempt
 /-
 Driver for C06.  Op lines (integer tokens):
 
@@ -55,6 +56,11 @@ Driver for C06.  Op lines (integer tokens):
                                                           -> rfilter <0|1> / ralloc 0 | ralloc 1 <ncell> (cell amt)…
                                                            (a pod without cpu bind through RestoreReservation → Filter → Reserve with
                                                             matched / unmatched reservations = (reserve pod uid, owner uids))
+  pdry <maxRef> <nt> cpu…                                 (a preemption dry run starts: empty preemptible state, the CPU ids
+                                                           of the node's topology; no output)
+  prm <node> <uid>                                        -> pre cpu… / pavail cpu…   (Plugin.RemovePod of a victim: the CPUs reported
+                                                           preemptible and GetAvailableCPUs(node, ∅, preemptible))
+  pad <node> <uid>                                        -> pre cpu… / pavail cpu…   (Plugin.AddPod: the victim is reprieved)
 ledger dump = `pods u…` / `cpus (c ref excl)…` / `res (cell amt)…` (non-zero) / `avail c…`,
 every list sorted by key.  All amounts in milli-units.
 -/
@@ -98,6 +104,9 @@ structure Ctx where
                           caps := [], num := 0, den := 1 }
   last     : Option PodAlloc := none
   M        : Mgr := Mgr.empty
+  pre      : PreAlloc := PreAlloc.empty
+  ptopo    : List Nat := []
+  pmax     : Int := 1
 
 def dump (c : Ctx) : List String :=
   let pods := sortNat (c.L.pods.map (·.uid))
@@ -107,6 +116,10 @@ def dump (c : Ctx) : List String :=
     "cpus " ++ " ".intercalate (cpus.map fun (k, r) => s!"{k} {r.ref} {r.excl}"),
     "res " ++ " ".intercalate (res.map fun (k, v) => s!"{k} {v}"),
     "avail " ++ showNats (sortNat (availableCPUs c.topo c.L.cpus c.maxRef c.reserved [])) ]
+
+def dumpDry (c : Ctx) (n : Nat) : List String :=
+  [ "pre " ++ showNats (sortNat c.pre.preemptible),
+    "pavail " ++ showNats (sortNat (dryAvailable c.ptopo c.pmax (c.M.L n) c.pre)) ]
 
 def parsePod : List Int → Option PodAlloc
   | uid :: excl :: rest => do
@@ -407,6 +420,25 @@ def runLine (c : Ctx) (line : String) : Ctx × List String :=
         match xs with
         | [n, u] => if n < 0 || u < 0 then (c, ["bad-op"]) else
           let c' := { c with M := c.M.apply (.release n.toNat u.toNat) }; (c', dumpEvents c'.M)
+        | _ => (c, ["bad-op"])
+      | "pdry" =>
+        match xs with
+        | maxRef :: rest =>
+          match takeBlock 1 rest with
+          | some (t, []) =>
+            if t.any (· < 0) then (c, ["bad-op"]) else
+            ({ c with pre := PreAlloc.empty, ptopo := t.map Int.toNat, pmax := maxRef }, [])
+          | _ => (c, ["bad-op"])
+        | _ => (c, ["bad-op"])
+      | "prm" =>
+        match xs with
+        | [n, u] => if n < 0 || u < 0 then (c, ["bad-op"]) else
+          let c' := { c with pre := removePodDry c.M n.toNat c.pre u.toNat }; (c', dumpDry c' n.toNat)
+        | _ => (c, ["bad-op"])
+      | "pad" =>
+        match xs with
+        | [n, u] => if n < 0 || u < 0 then (c, ["bad-op"]) else
+          let c' := { c with pre := addPodDry c.M n.toNat c.pre u.toNat }; (c', dumpDry c' n.toNat)
         | _ => (c, ["bad-op"])
       | "esel" =>
         match xs with
